@@ -32,7 +32,7 @@ def gen(chk, tier):
         kw.update(sc=k, op=op)
         cmds.append(kw)
 
-    nkeys = 6 if tier == "quick" else 300
+    nkeys = 6 if tier == "quick" else 1500
     keys = [list(STD), [0] * 16, [255] * 16] + [rb(rng, 16) for _ in range(nkeys)]
     # key schedules, word for word
     for key in keys:
